@@ -103,10 +103,10 @@ actions = {child._filter(l10n_file, entity=entity) for child in self.children}
 if <<s:early>> in actions:
     return <<s:early>>
 cached = self.cache(l10n_file.locale)
-if any((p.match(l10n_file.fullpath) for p in cached.l10n_paths)):
+if any((p.match(l10n_file.fullpath) is not None for p in cached.l10n_paths)):
     action = <<s:default>>
     for rule in reversed(cached.rules):
-        if not rule['path'].match(l10n_file.fullpath):
+        if rule['path'].match(l10n_file.fullpath) is None:
             continue
         if ('key' in rule) ^ (entity is not None):
             continue
